@@ -33,7 +33,7 @@ for f in $SRC/demo$N/*.go; do d=$(pkgdir $f); rm -f $M/repo/$d/$(basename $f); d
 echo "SEED $P-$N: demo on unchanged code rc=$clean_demo (want 0); suite with change rc=$suite (want 0); demo with change rc=$mut_demo (want 1)"
 res=""
 for c in "$@"; do
-  VERIF_REPO=$M/repo VERIF_OUT=$M/out VERIF_BUDGET=${VERIF_BUDGET:-25} /verif/verifctl.py check $c quick > $M/$c.log 2>&1
+  VERIF_CACHE=$M/cache VERIF_REPO=$M/repo VERIF_OUT=$M/out VERIF_BUDGET=${VERIF_BUDGET:-25} /verif/verifctl.py check $c quick > $M/$c.log 2>&1
   r=$?
   sig=$(grep -a '^violation:' $M/$c.log | cut -c1-120 | head -3 | tr '\n' ';')
   echo "SEED $P-$N check $c: exit $r $sig"
